@@ -90,7 +90,14 @@ func (r *RecordLayer) Unmarshal(data []byte) error {
 		return dtlserrors.ErrInvalidContentType
 	}
 
-	return r.Content.Unmarshal(data[r.Header.Size()+len(r.Header.ConnectionID):])
+	// The fragment is exactly the declared number of bytes: fewer are a
+	// truncated record, further ones belong to whatever follows the record.
+	fragment := data[r.Header.Size()+len(r.Header.ConnectionID):]
+	if len(fragment) < int(r.Header.ContentLen) {
+		return ErrInvalidPacketLength
+	}
+
+	return r.Content.Unmarshal(fragment[:r.Header.ContentLen])
 }
 
 // UnpackDatagram extracts all RecordLayer messages from a single datagram.
